@@ -47,11 +47,16 @@
     #[test]
     fn search() {
         let (mut cases, mut fails) = (0u64, 0u32);
+        let mut distinct: std::collections::HashSet<String> = std::collections::HashSet::new();
         let esc = |s: &str| s.replace('\\', "\\\\").replace('"', "'").replace('\n', "\\n").replace('\t', " ");
         for src in corpus() {
             let (model, lm) = match (to_model(&src), to_linear(&src)) { (Ok(m), Ok(l)) => (m, l), _ => continue };
             cases += 1;
             let want = lm.to_string();
+            // non-trivial: the source compiles; distinct: by rendered linear model
+            if distinct.insert(want.clone()) && distinct.len() % 25 == 1 {
+                println!("WITNESS-SAMPLE {{\"source\": \"{}\", \"linear_model\": \"{}\"}}", src.replace('\\', "\\\\").replace('"', "'").replace('\n', "\\n"), want.replace('\\', "\\\\").replace('"', "'").replace('\n', "\\n"));
+            }
             let mut report = |fn_: &str, clause: &str, text: &str, detail: String| {
                 if fails < 60 { println!("WITNESS-FAIL {{\"fn\": \"{}\", \"clause\": \"{}\", \"source\": \"{}\", \"rendered\": \"{}\", \"detail\": \"{}\"}}", fn_, clause, esc(&src), esc(text), esc(&detail)); }
                 fails += 1;
@@ -74,5 +79,5 @@
                 }
             }
         }
-        println!("WITNESS-DONE cases={}", cases);
+        println!("WITNESS-DONE cases={} distinct={}", cases, distinct.len());
     }
